@@ -8,6 +8,7 @@ import os
 import shutil
 import subprocess
 import sys
+import tempfile
 import threading
 import time
 from typing import Dict, List, Optional
@@ -69,6 +70,10 @@ class Cell:
         env["CORSIM_REPO"] = self.repo
         env["PYTHONDONTWRITEBYTECODE"] = "1"
         env.pop("PYTHONSTARTUP", None)
+        # private scratch directory for the solver peer's MPS / solution files; removed with the cell, also when the
+        # cell is killed in the middle of a solve
+        self.tmp = tempfile.mkdtemp(prefix="corsim-cell-")
+        env["TMPDIR"] = self.tmp
         self.proc = subprocess.Popen([PY, "-m", "corsim.worker"], stdin=subprocess.PIPE, stdout=subprocess.PIPE,
                                      stderr=subprocess.PIPE, env=env, cwd=VERIF, text=True, bufsize=1)
         self.stderr_tail: List[str] = []
@@ -136,12 +141,15 @@ class Cell:
             self.proc.wait(timeout=10)
         except Exception:
             self.kill()
+        shutil.rmtree(self.tmp, ignore_errors=True)
 
     def kill(self):
         try:
             self.proc.kill()
+            self.proc.wait(timeout=10)
         except Exception:
             pass
+        shutil.rmtree(self.tmp, ignore_errors=True)
 
 
 HANG_TIMEOUT_S = 45.0
